@@ -124,7 +124,8 @@ func (h *H) colourSpec(rng *gen.Rng) (string, string) {
 	case 5: // 16 bits per channel, arbitrary
 		return hexDigits(rng, 4, false) + "/" + hexDigits(rng, 4, false) + "/" + hexDigits(rng, 4, false), "rgb-4digit-any"
 	case 6:
-		return hexDigits(rng, 1, false) + "/" + hexDigits(rng, 3, false) + "/" + hexDigits(rng, rng.Range(1, 4), false), "rgb-mixed-digits"
+		// every channel with its own digit count (1-4) and case: all of them XParseColor forms
+		return hexDigits(rng, rng.Range(1, 4), rng.Bool()) + "/" + hexDigits(rng, rng.Range(1, 4), rng.Bool()) + "/" + hexDigits(rng, rng.Range(1, 4), rng.Bool()), "rgb-mixed-digits"
 	case 7: // what Sscanf also accepts: blanks, signs, long numbers
 		parts := []string{}
 		for i := 0; i < 3; i++ {
@@ -145,7 +146,8 @@ func (h *H) colourSpec(rng *gen.Rng) (string, string) {
 	case 8: // trailing text
 		return hexDigits(rng, 2, false) + "/" + hexDigits(rng, 2, false) + "/" + hexDigits(rng, 2, false) + []string{"/ff", " x", "zz", ";1"}[rng.Intn(4)], "rgb-trailing"
 	default: // malformed
-		return []string{"", "ff", "ff/ff", "ff/ff/", "gg/00/00", "ff;ff;ff", "f_f/00/00", "/00/00", "ff//00", "0x1f/00/00", "ff/ff/zz", "\tff/ff/ff"}[rng.Intn(12)], "rgb-malformed"
+		return []string{"", "ff", "ff/ff", "ff/ff/", "gg/00/00", "ff;ff;ff", "f_f/00/00", "/00/00", "ff//00", "0x1f/00/00", "ff/ff/zz", " ff/ff/ff",
+			"f\u00e9/00/00", "fff\u00e9/00/00", "00/00/12345", "00/00/00/00"}[rng.Intn(16)], "rgb-malformed"
 	}
 }
 
